@@ -26,6 +26,10 @@ from luna.gateware.usb.usb2.endpoints.isochronous_stream_in import USBIsochronou
 LEVEL = "proof"
 EXPLANATION = ("1-induction on the netlist of the real USBIsochronousStreamInEndpoint: bytes_left_in_frame / bytes_left_in_packet / "
                "next_data_pid / FSM are functions of the observer ghosts (requested, sent, packets completed) for any counts.")
+ASSUMPTIONS = [
+    "C15: bytes_in_frame <= 3 x max_packet_size when new_frame is raised",
+    "C15: no new_frame while the endpoint is transmitting, and new_frame never coincides with a response slot for this endpoint",
+]
 IDLE, SEND, ZLP = 0, 1, 2
 NW = 13
 
